@@ -45,8 +45,9 @@ def arm_context(F, b, site):
     return ctxs
 
 
-def entries(ctx, flavours=None, fams=BUILDERS):
-    """entry-point bodies: methods of builder types that call at least one kernel (and are not kernels)"""
+def entries(ctx, flavours=None, fams=BUILDERS, which=None):
+    """entry-point bodies: methods of builder types that call at least one kernel (and are not kernels).
+    which = 'cycle' keeps the entries that set self.target themselves (search_cycle), 'path' the others"""
     F = ctx.F
     kq = {K.q: K for K in ctx.kernels()}
     out = []
@@ -60,6 +61,10 @@ def entries(ctx, flavours=None, fams=BUILDERS):
             continue
         sites = [(bi, t, kq[t['res']]) for bi, t in calls_in(b, lambda t: t.get('local') and t.get('res') in kq)]
         if sites:
+            if which is not None:
+                cyc = _is_cycle_entry(F, b, None)
+                if (which == 'cycle') != cyc:
+                    continue
             out.append((b, sites))
     return out
 
@@ -73,12 +78,12 @@ def kernel_labels(ctx):
     return table
 
 
-def tr1(ctx, flavours, fams=BUILDERS):
+def tr1(ctx, flavours, fams=BUILDERS, which=None):
     """Transposition::Outbound arms reach OUT kernels, Inbound arms reach IN kernels"""
     from .rules_kernel import direction
     F = ctx.F
     out = []
-    for b, sites in entries(ctx, flavours, fams):
+    for b, sites in entries(ctx, flavours, fams, which):
         for bi, t, K in sites:
             labs = arm_context(F, b, bi)
             tl = [l.split('::')[-1] for l in labs if l.startswith('Transposition::')]
@@ -94,11 +99,11 @@ def tr1(ctx, flavours, fams=BUILDERS):
     return out
 
 
-def pfs1(ctx, flavours):
+def pfs1(ctx, flavours, which=None):
     """Priority::Min arms use a Reverse heap seeded with Reverse(root); Max arms have no Reverse"""
     F = ctx.F
     out = []
-    for b, sites in entries(ctx, flavours, ('Pfs',)):
+    for b, sites in entries(ctx, flavours, ('Pfs',), which):
         pv = F.prov(b)
         for bi, t, K in sites:
             labs = arm_context(F, b, bi)
@@ -196,12 +201,12 @@ def tr2(ctx, flavours):
     return out
 
 
-def init(ctx, flavours, fams=BUILDERS):
+def init(ctx, flavours, fams=BUILDERS, which=None):
     """INIT: path/target/order entries mark the root visited and seed the frontier with it before the kernel call;
     CYC-INIT: cycle entries set target := key(root), seed the frontier and do NOT mark the root."""
     F = ctx.F
     out = []
-    for b, sites in entries(ctx, flavours, fams):
+    for b, sites in entries(ctx, flavours, fams, which):
         pv = F.prov(b)
         cfg = F.cfg(b)
         rootf = _root_field(F, b)
@@ -296,11 +301,11 @@ def _is_cycle_entry(F, b, ROOT):
     return False
 
 
-def result_map(ctx, flavours, fams=('Bfs', 'Dfs', 'Pfs')):
+def result_map(ctx, flavours, fams=('Bfs', 'Dfs', 'Pfs'), which=None):
     """kernel bool/Option is mapped true -> Some(Path::from_edge_tree(edges)), false -> None; find-kernels returned as is"""
     F = ctx.F
     out = []
-    for b, sites in entries(ctx, flavours, fams):
+    for b, sites in entries(ctx, flavours, fams, which):
         pv = F.prov(b)
         cfg = F.cfg(b)
         for bi, t, K in sites:
